@@ -20,7 +20,9 @@ ID = "C08"
 LEVEL = "exploration"
 RULE = (
     "record multisets: every multiset of <= 5 (thorough 6) (value, sample type) pairs over the values {0, 0.5, 1, 2, 3.25, 100} for the "
-    "first task (the second task gets a shifted copy; both tasks share one operation and the second is named like the operation), "
+    "first task (the second task gets a shifted copy; both tasks share one operation and the second is named like the operation; the "
+    "first task also has dependent sub-request records of another operation type, the second task's latency / processing_time exist only "
+    "for part of its records), "
     "success flags from every (ok, failed, warm-up ok, warm-up failed) count vector in 0..2, and structured streams at the "
     "percentile-set boundaries 9, 10, 99, 100, 999, 1000, 9999, 10000 with and without warm-up records. Each case: calculate results, "
     "compare with the reference, repeat without the warm-up records (differential), store and re-load race.json. Cluster-level "
